@@ -173,7 +173,7 @@ def check(ctx, case):
              sample_text={'pattern': pat, 'xml': case['xml'][:200], 'matches': sorted(ref)[:8]})
     fields = [('ns', '%s=%s' % kv) for kv in xpcase.NSMAP.items()]
     from ..drv import DriverCrash, crash_signature
-    kw = dict(doc=case['xml'].encode('utf-8'), pattern=pat, defexpr=1, docform=form)
+    kw = dict(doc=case['xml'].encode('utf-8'), pattern=pat, defexpr=1, docform=form, callerlists=1)
     try:
         r = ctx.drv.call('match', fields, **kw)
     except DriverCrash as e:
@@ -200,6 +200,14 @@ def check(ctx, case):
     evaluator = None
     if r.gets('d') is not None and not r.has('d.err'):
         evaluator = {k for k in r.gets('d').split('\n') if k and '/ns:' not in k}
+    for key, name in (('ma', 'all-nodes'), ('ms', 'singleton')):
+        if r.has(key + '.err'):
+            return {'what': 'error-matching', 'pattern': pat, 'err': r.gets(key + '.errmsg'), 'feats': sorted(feats), 'callerlist': name}
+        other = {v.decode('utf-8', 'surrogatepass') for v in r.all(key)}
+        other = {k for k in other if '/ns:' not in k}
+        if other != got:
+            return {'what': 'match-depends-on-callers-node-list', 'pattern': pat, 'callerlist': name, 'only-with-it': sorted(other - got)[:6], 'only-without': sorted(got - other)[:6],
+                    'feats': sorted(feats), 'form': form, 'dir': name, 'kinds': []}
     if nsattr:
         return {'what': 'matches-namespace-declaration', 'pattern': pat, 'nodes': sorted(nsattr)[:5], 'feats': sorted(feats), 'form': form}
     if got != ref:
